@@ -152,10 +152,21 @@ def phase_filter(pids, workers=4):
     print(tally)
 
 
+CHECKED = os.path.join(V, "build", "mutscan-checked.json")
+
+
+def load_checked():
+    return json.load(open(CHECKED)) if os.path.exists(CHECKED) else {}
+
+
 def phase_check(pids):
+    # Results go to a file of their own, so that this phase can run while the
+    # filter phase is still writing its state.
     st = load()
-    todo = [k for k, m in st["mutants"].items() if m.get("suite") == "survives" and "detected" not in m and set(m["props"]) & set(pids)]
+    checked = load_checked()
+    todo = [k for k, m in st["mutants"].items() if m.get("suite") == "survives" and k not in checked and set(m["props"]) & set(pids)]
     print("survivors to check: %d" % len(todo), flush=True)
+    allcov = {pid: covered_lines(pid) for pid in anchors()}
     wt = worktree("c")
     order = {"C03": 0, "C13": 1, "C14": 2, "C18": 3, "C06": 4, "C12": 5, "C02": 6, "C16": 7, "C15": 8, "C17": 9, "C11": 10, "C07": 11}
     try:
@@ -164,7 +175,18 @@ def phase_check(pids):
             apply(wt, m)
             m["detected"] = False
             m["by"] = []
-            for pid in sorted(m["props"], key=lambda p: order.get(p, 50)):
+            # The properties anchored in the file first, then every other
+            # property whose check executes the mutated line.
+            cands = sorted(m["props"], key=lambda p: order.get(p, 50))
+            for pid in sorted(allcov, key=lambda p: order.get(p, 50)):
+                if pid not in cands and m["line"] in (allcov[pid] or {}).get(m["file"], ()):
+                    cands.append(pid)
+            # C01 (no panic, no hang) is the slowest check and is subsumed for
+            # this purpose by the specific ones, which treat a panic as a
+            # violation too; it is used only when nothing else covers the line.
+            if len(cands) > 1 and "C01" in cands:
+                cands.remove("C01")
+            for pid in cands:
                 t0 = time.time()
                 r = sh([os.path.join(V, "check"), pid, "quick"], env=dict(ENV, VERIF_REPO=wt))
                 m["by"].append([pid, r.returncode, round(time.time() - t0)])
@@ -173,13 +195,18 @@ def phase_check(pids):
                     break
             restore(wt, m)
             print("%d/%d %s %s:%d %s [%s] -> %s" % (n + 1, len(todo), "DETECTED" if m["detected"] else "UNDETECTED", m["file"], m["line"], m["desc"], m["func"], m["by"]), flush=True)
-            save(st)
+            checked[k] = {"detected": m["detected"], "by": m["by"]}
+            json.dump(checked, open(CHECKED + ".tmp", "w"))
+            os.replace(CHECKED + ".tmp", CHECKED)
     finally:
         sh(["git", "-C", "/repo", "worktree", "remove", "--force", wt])
 
 
 def report():
     st = load()
+    for k, c in load_checked().items():
+        if k in st["mutants"]:
+            st["mutants"][k].update(c)
     und = [m for m in st["mutants"].values() if m.get("suite") == "survives" and m.get("detected") is False]
     det = [m for m in st["mutants"].values() if m.get("detected")]
     print("survivors of the suite: %d, detected by a check: %d, undetected: %d" % (len(und) + len(det), len(det), len(und)))
